@@ -4,6 +4,7 @@ import (
 	"fmt"
 	"sort"
 	"strings"
+	"time"
 
 	"github.com/nyaruka/goflow/assets"
 	"github.com/nyaruka/goflow/envs"
@@ -214,7 +215,8 @@ func (f FieldValues) Parse(env envs.Environment, fields *FieldAssets, field *Fie
 	}
 
 	if parsedDate, xerr := types.ToXDateTimeWithTimeFill(env, asText); xerr == nil {
-		asDateTime = parsedDate
+		// field values are persisted with microsecond precision so that's all the precision a new value gets
+		asDateTime = types.NewXDateTime(parsedDate.Native().Truncate(time.Microsecond))
 	}
 
 	var asLocation *envs.Location
